@@ -173,13 +173,19 @@ impl Iterator for StyledScanlines {
         self.scanlines.next().map(|scanline| {
             if self.fill_area.rows.contains(&scanline.y) {
                 // Rows that contain no point of the fill area have no fill range.
-                let fill_range = scanline
-                    .x
+                //
+                // The fill area isn't necessarily inside the stroke area if radii that are larger
+                // than the rectangle are confined, so that all columns of the fill area and not
+                // only the columns of the stroke scanline need to be searched.
+                let fill_range = self
+                    .fill_area
+                    .columns
                     .clone()
                     .find(|x| self.fill_area.contains(Point::new(*x, scanline.y)))
                     .map(|fill_start| {
-                        let fill_end = scanline
-                            .x
+                        let fill_end = self
+                            .fill_area
+                            .columns
                             .clone()
                             .rfind(|x| self.fill_area.contains(Point::new(*x, scanline.y)))
                             .map(|x| x + 1)
